@@ -16,7 +16,15 @@
 
 using namespace vf;
 using namespace Spectra;
-using SpMat = Eigen::SparseMatrix<double>;
+#ifndef VF_SCALAR
+#define VF_SCALAR double
+#endif
+using SC = VF_SCALAR;  // the library's default is long double (built as c17_lobpcg_ld in the thorough tier)
+using SpMat = Eigen::SparseMatrix<SC>;
+using MatS = Eigen::Matrix<SC, Eigen::Dynamic, Eigen::Dynamic>;
+using VecS = Eigen::Matrix<SC, Eigen::Dynamic, 1>;
+static const bool IS_DOUBLE = std::is_same<SC, double>::value;
+static const LD UEPS = LD(std::numeric_limits<SC>::epsilon());
 
 static MatL make_A(int n, int kind, int k)
 {
@@ -74,21 +82,21 @@ static std::string arg_str(const Arg& a) { return "C(" + num(a.maxit) + "," + st
 struct Sub { int n, akind, bkind, prec, k, x0; };
 
 // canonical state of a solver object: everything a later compute() or an accessor can depend on
-static uint64_t canon(LOBPCGSolver<double>& s)
+static uint64_t canon(LOBPCGSolver<SC>& s)
 {
     Fnv f;
-    Eigen::MatrixXd X = Eigen::MatrixXd(s.X);
+    MatS X = MatS(s.X);
     f.pod(int(X.rows())); f.pod(int(X.cols()));
     for (Eigen::Index j = 0; j < X.cols(); j++) for (Eigen::Index i = 0; i < X.rows(); i++) f.pod(X(i, j));
     for (Eigen::Index i = 0; i < s.m_evalues.size(); i++) f.pod(s.m_evalues[i]);
-    Eigen::MatrixXd R = Eigen::MatrixXd(s.m_residuals);
+    MatS R = MatS(s.m_residuals);
     for (Eigen::Index j = 0; j < R.cols(); j++) for (Eigen::Index i = 0; i < R.rows(); i++) f.pod(R(i, j));
     f.pod(int(s.m_info));
     return f.h;
 }
 
 // The oracle of the property, evaluated on the state right after compute(maxit, tol).
-static void check_state(LOBPCGSolver<double>& solver, const Sub& s, double tol, const MatL& A, const MatL& B, const VecL& refvals,
+static void check_state(LOBPCGSolver<SC>& solver, const Sub& s, double tol, const MatL& A, const MatL& B, const VecL& refvals,
                         const std::string& key, const std::string& rp, Local& L, bool d1)
 {
     const int n = s.n, k = s.k;
@@ -100,8 +108,8 @@ static void check_state(LOBPCGSolver<double>& solver, const Sub& s, double tol, 
     Fnv f; f.str(key);
     L.distinct.insert(f.h);
     L.sample("{\"subject\": " + jstr(key) + ", \"info\": \"Success\"}", 4);
-    Eigen::VectorXd ev = solver.eigenvalues();
-    Eigen::MatrixXd X = solver.eigenvectors(), Rs = solver.residuals();
+    VecS ev = solver.eigenvalues();
+    MatS X = solver.eigenvectors(), Rs = solver.residuals();
     if (ev.size() != k) { viol("count", "eigenvalues().size()=" + num(long(ev.size())) + " for block size " + num(k)); return; }
     const LD nA = fro(A);
     if (X.rows() != n || X.cols() != k) { viol("eigenvectors-shape", "eigenvectors() is " + num(long(X.rows())) + "x" + num(long(X.cols())) + ", expected " + num(n) + "x" + num(k)); return; }
@@ -111,10 +119,10 @@ static void check_state(LOBPCGSolver<double>& solver, const Sub& s, double tol, 
     for (int i = 0; i < k; i++) if (Xl.col(i).norm() < 1e-3L) sig = " [zero eigenvector column " + num(i) + "]";
     for (int i = 0; i < k; i++)
     {
-        if (!std::isfinite(ev[i])) { viol("nonfinite", "eigenvalue not finite"); return; }
+        if (!std::isfinite(double(ev[i]))) { viol("nonfinite", "eigenvalue not finite"); return; }
         if (i + 1 < k && ev[i] > ev[i + 1]) viol("order", "eigenvalues not ascending");
         // residual norm < tol*n implies |lambda - reference| <= tol*n / sqrt(lambda_min(B)) (+ rounding)
-        const LD err = std::abs(LD(ev[i]) - refvals[i]), bound = 10 * LD(tol) * n + 1e3L * LD(std::numeric_limits<double>::epsilon()) * nA;
+        const LD err = std::abs(LD(ev[i]) - refvals[i]), bound = 10 * LD(tol) * n + 1e3L * UEPS * nA;
         L.ratio("values", err / bound);
         if (!(err <= bound)) viol("values", "lambda_" + num(i) + "=" + gnum(ev[i]) + " but the reference smallest eigenvalue #" + num(i) + " is " + gnum(refvals[i]) + sig);
     }
@@ -123,7 +131,7 @@ static void check_state(LOBPCGSolver<double>& solver, const Sub& s, double tol, 
     if (!(g <= 1e-8L)) viol("X'BX=I", "max|X'BX - I|=" + gnum(g) + sig);
     if (Rs.rows() != n || Rs.cols() != k) { viol("residuals-shape", "residuals() is " + num(long(Rs.rows())) + "x" + num(long(Rs.cols()))); return; }
     MatL Rref = A * Xl - B * Xl * ev.cast<LD>().asDiagonal();
-    const LD e = maxabs(MatL(Rs.cast<LD>() - Rref)), eb = 1e3L * LD(std::numeric_limits<double>::epsilon()) * nA * n;
+    const LD e = maxabs(MatL(Rs.cast<LD>() - Rref)), eb = 1e3L * UEPS * nA * n;
     L.ratio("residuals_identity", e / eb);
     if (!(e <= eb)) viol("residuals", "residuals() differs from A X - B X diag(lambda) by " + gnum(e));
     // the tolerance is the one of the compute() call that produced this state (the most recent one); the true residual is
@@ -151,23 +159,23 @@ int main(int argc, char** argv)
     R.run("histories", subs.size(), [&](uint64_t idx, Local& L) {
         const Sub s = subs[idx];
         const int n = s.n, k = s.k;
-        const std::string skey = "LOBPCG|n=" + num(n) + ",A" + num(s.akind) + ",B" + num(s.bkind) + ",prec" + num(s.prec) + ",k=" + num(k) + ",X0_" + num(s.x0);
+        const std::string skey = std::string(IS_DOUBLE ? "LOBPCG" : "LOBPCG<longdouble>") + "|n=" + num(n) + ",A" + num(s.akind) + ",B" + num(s.bkind) + ",prec" + num(s.prec) + ",k=" + num(k) + ",X0_" + num(s.x0);
         const std::string rp = "histories#" + num(idx);
         const MatL A = make_A(n, s.akind, k), B = make_B(n, s.bkind), X0 = make_X0(n, k, s.x0);
         Eigen::GeneralizedSelfAdjointEigenSolver<MatL> ref(A, B);
         const VecL refvals = ref.eigenvalues();
-        SpMat As = Eigen::MatrixXd(A.cast<double>()).sparseView(), Bs = Eigen::MatrixXd(B.cast<double>()).sparseView(), Xs = Eigen::MatrixXd(X0.cast<double>()).sparseView();
-        struct Node { LOBPCGSolver<double> s; std::string hist; };
+        SpMat As = MatS(A.cast<SC>()).sparseView(), Bs = MatS(B.cast<SC>()).sparseView(), Xs = MatS(X0.cast<SC>()).sparseView();
+        struct Node { LOBPCGSolver<SC> s; std::string hist; };
         std::vector<Node> frontier;
         std::set<uint64_t> seen;
         try
         {
-            LOBPCGSolver<double> fresh(As, Xs);
+            LOBPCGSolver<SC> fresh(As, Xs);
             if (s.bkind) fresh.setB(Bs);
             if (s.prec)
             {
                 SpMat P(n, n);
-                for (int i = 0; i < n; i++) P.insert(i, i) = 1.0 / double(A(i, i));
+                for (int i = 0; i < n; i++) P.insert(i, i) = SC(1) / SC(A(i, i));
                 fresh.setPreconditioner(P);
             }
             if (fresh.info() == Eigen::Success) L.violate(skey + "|status-before-compute", rp, "info() is Success before any compute()");
@@ -188,8 +196,8 @@ int main(int argc, char** argv)
                     L.evaluations++;
                     try
                     {
-                        LOBPCGSolver<double> sv(node.s);
-                        sv.compute(arg.maxit, arg.tol);
+                        LOBPCGSolver<SC> sv(node.s);
+                        sv.compute(arg.maxit, SC(arg.tol));
                         L.transitions++;
                         if (d == 1 && a < 4) L.count("d1_total");
                         check_state(sv, s, arg.tol, A, B, refvals, key, rp, L, d == 1 && a < 4);
